@@ -123,7 +123,7 @@ Observe ==
                keys |-> KeysOf(Root, o), explain |-> Explain(Root, o),
                mentions |-> Mentions(Root), reads |-> TemplateReads(Root, o),
                restrict |-> LET k == KeysOf(Root, o) IN IF k.ok THEN Restrict(o, k.ks) ELSE EmptyD,
-               permit |-> Permit(Root, o), dem |-> Dem(Root, o),
+               permit |-> Permit(Root, o), dem |-> Dem(Root, o), cacheslazy |-> CachesLazy(Root, o),
                valruns |-> LET vr == ValRuns(Root, o) IN vr \cup {BaseOf(m) : m \in vr},
                swallows |-> Swallows(Root, o) \/ LET k == KeysOf(Root, o) IN k.ok /\ Swallows(Root, Restrict(o, k.ks)),
                visited |-> {x.n : x \in Visit(Root, o)} \cup {BaseOf(x.n) : x \in Visit(Root, o)},
